@@ -402,7 +402,6 @@ Proof.
     + destruct (fst (serialize (rejection_resp (Some t))) ++ snd (serialize (rejection_resp (Some t)))) eqn:E;
         [|reflexivity].
       apply app_eq_nil in E as [E _]. exfalso. exact (serialize_nonempty _ E).
-  - apply (E40 (lit "Request rejected")).
 Qed.
 
 Definition RG (evs : list event) (cons : list nat) (s : st) : Prop :=
@@ -535,7 +534,7 @@ Proof using MW.
       destruct (RG_Q1 r _ i k I' Q v FV' NA) as [G1 G2].
       split; [exact G1|]. intros HL TR S. destruct (has_lost_cons _ _ HL) as [NL HL'].
       rewrite (wire_app_nowc _ _ K2). apply G2; [exact HL'| |congruence].
-      rewrite (e_tr _ _ _ (Eff_feed ip6 handler has_mw has_upload peer_ip peer_fp sl s)). exact TR.
+      rewrite (e_tr _ _ _ (Eff_feed ip6 handler has_mw has_upload peer_ip peer_fp sl s)). exact TR0.
 Qed.
 
 Theorem refusal_run (c : cfg) evs :
